@@ -12,7 +12,11 @@ type VerifBucket[T any, V any] struct {
 	Vals []V
 	// Nil is true when the bucket exists but holds a nil head pointer.
 	Nil bool
+	// Cyclic is true when the walk did not reach nil within verifMaxChain nodes.
+	Cyclic bool
 }
+
+const verifMaxChain = 1 << 16
 
 // VerifDump returns every bucket of the table (Go map order) and the size counter.
 func (m *HashMap[T, ValType]) VerifDump() ([]VerifBucket[T, ValType], int64) {
@@ -20,14 +24,41 @@ func (m *HashMap[T, ValType]) VerifDump() ([]VerifBucket[T, ValType], int64) {
 	for code, n := range m.hashmap {
 		b := VerifBucket[T, ValType]{Code: code, Nil: n == nil}
 		guard := 0
-		for cur := n; cur != nil && guard < 1<<20; cur = cur.next {
+		cur := n
+		for ; cur != nil && guard < verifMaxChain; cur = cur.next {
 			b.Keys = append(b.Keys, cur.key)
 			b.Vals = append(b.Vals, cur.value)
 			guard++
 		}
+		b.Cyclic = cur != nil
 		res = append(res, b)
 	}
 	return res, m.size
+}
+
+// VerifCyclic reports whether some chain of the table does not end.
+func (m *HashMap[T, ValType]) VerifCyclic() bool {
+	bs, _ := m.VerifDump()
+	for _, b := range bs {
+		if b.Cyclic {
+			return true
+		}
+	}
+	return false
+}
+
+func (m *HashMap[T, ValType]) verifCyclic() bool { return m.VerifCyclic() }
+
+// VerifCyclic: the underlying HashMap (if any) has a chain that does not end.
+func (l *LinkedMap[K, V]) VerifCyclic() bool {
+	d, ok := any(l.m).(interface{ verifCyclic() bool })
+	return ok && d.verifCyclic()
+}
+
+// VerifCyclic: the underlying HashMap (if any) has a chain that does not end.
+func (m *MultiMap[K, V]) VerifCyclic() bool {
+	d, ok := any(m.m).(interface{ verifCyclic() bool })
+	return ok && d.verifCyclic()
 }
 
 func (m *HashMap[T, ValType]) verifBucketKeys() ([]uint64, [][]T, int64) {
@@ -71,7 +102,7 @@ func (l *LinkedMap[K, V]) VerifBucketKeys() (codes []uint64, keys [][]K, size in
 func (l *LinkedMap[K, V]) VerifBackward() []K {
 	res := make([]K, 0, l.length)
 	guard := 0
-	for cur := l.tail.prev; cur != l.head && cur != nil && guard < 1<<20; cur = cur.prev {
+	for cur := l.tail.prev; cur != l.head && cur != nil && guard < verifMaxChain; cur = cur.prev {
 		res = append(res, cur.key)
 		guard++
 	}
